@@ -1,0 +1,15 @@
+//go:build verif
+
+package file
+
+// VerifHook, when set, is called at the step boundaries of WriteFile
+// ("created", "written", "closed", "return"). It exists only in builds with
+// the verif tag and is used by the verification harness to hold or crash a
+// writer at a step boundary.
+var VerifHook func(point, temp, path string)
+
+func verifHook(point, temp, path string) {
+	if h := VerifHook; h != nil {
+		h(point, temp, path)
+	}
+}
